@@ -29,6 +29,7 @@ type cwdModel struct {
 }
 
 type Model struct {
+	unacked map[string][]byte // per uploaded file: payload bytes of a final write that ended without an answer
 	root       string
 	allowWrite bool
 	cwd        *cwdModel
@@ -76,6 +77,9 @@ func (m *Model) Final() string {
 		got, err := os.ReadFile(real)
 		if err != nil {
 			return fmt.Sprintf("uploaded file %s unreadable afterwards: %v", real, err)
+		}
+		if extra, ok := m.unacked[real]; ok && len(got) >= len(want) && len(got) <= len(want)+len(extra) && bytes.Equal(got[:len(want)], want) && bytes.Equal(got[len(want):], extra[:len(got)-len(want)]) {
+			continue // the acknowledged bytes, followed by a prefix of the payload that was never acknowledged
 		}
 		if !bytes.Equal(got, want) {
 			return fmt.Sprintf("uploaded file %s: on disk %s", real, describeDiff(got, want))
@@ -267,6 +271,16 @@ func (m *Model) check(req Req, resp []byte, closed bool) (why string, class stri
 		}
 		if !closed {
 			return bad("connection left open after malformed/unknown request")
+		}
+		if req.Op == opWriteFile && req.Trunc > 16 && m.allowWrite && m.wo != "" {
+			// an upload that ended without any answer: nothing was acknowledged, what arrived may have been stored
+			// (any prefix of it)
+			if _, ok := m.files[m.wo]; ok {
+				if m.unacked == nil {
+					m.unacked = map[string][]byte{}
+				}
+				m.unacked[m.wo] = append([]byte{}, req.Raw[16:]...)
+			}
 		}
 		return "", "malformed-closed"
 	}
